@@ -5,7 +5,7 @@ import gen, cases
 def run(R):
     if not R.build():
         return
-    R.lean(["C03", "C03Step"])
+    R.lean(["C03", "C03Step", "C03Loop"])
     quick = R.tier == "quick"
     rng = R.rng
     # T2 + completeness oracle on every answer of the implementation
